@@ -272,7 +272,10 @@ def rule_one_conjecture(ctx):
             ctx.add("ONE-CONJECTURE", "final:" + ch["name"], ms[-1] == "decompose", ctx.site(a, ch["root"]), "the final problem is decomposed into one problem per conjecture")
     s = fx.fn("decompose", impl_self="verifying::task::strong_equivalence::StrongEquivalenceTask")
     fm = [c for c in walk(s["body"]) if c.get("k") == "MethodCall" and c["method"] == "flat_map"]
-    ok = len(fm) == 1 and {hq.last(x) for x in flow.callees_in(flow.summ(fm[0]["args"][0]))} >= {"decompose_independent", "decompose_sequential"}
+    called = {hq.last(x) for x in flow.callees_in(flow.summ(fm[0]["args"][0]))} if len(fm) == 1 else set()
+    disp = tasks.decomposition_dispatch(fx, fm[0]["args"][0]) if len(fm) == 1 else []
+    ok = len(fm) == 1 and (called >= {"decompose_independent", "decompose_sequential"} or
+                           ("decompose" in called and disp == [("Decomposition::Independent", ["decompose_independent"]), ("Decomposition::Sequential", ["decompose_sequential"])]))
     ctx.add("ONE-CONJECTURE", "strong:decomposed", ok, ctx.site(s), "every strong-equivalence problem is decomposed before it is returned")
     # lemma consequences are axioms (GeneralLemma::try_from) and decompose_* leaves one conjecture: see C13 / C19 obligations re-evaluated here
     from . import c19
